@@ -89,9 +89,10 @@ AdmConverged(d2, I2) == \A l \in EffLeaves(I2) : Get(d2, l) = Eff(I2)[l]
 \* (b) leaves once defined that no live intent defines any more are gone (orphaned ones may stay)
 \* (a presence container nobody sets explicitly any more still exists while an intent defines a leaf below it:
 \*  its entry on the device may stay - deleting it would delete the child)
-ImpliedPresence(I2, l) == \E x \in LeavesOf(I2) : UPresenceParent[x] = l
+ImpliedPresence(I2, d2, l) == \/ \E x \in LeavesOf(I2) : UPresenceParent[x] = l
+                              \/ \E x \in DOMAIN d2 : x \in AllLeaf /\ UPresenceParent[x] = l   \* e.g. a leaf an orphaned intent left behind
 AdmNoStale(d, d2, E2, I2, orph) ==
-    \A l \in E2 \ LeavesOf(I2) : IF (l \in orph /\ ~Losing(I2, l)) \/ ImpliedPresence(I2, l) THEN Get(d2, l) \in {Get(d, l), "absent"}
+    \A l \in E2 \ LeavesOf(I2) : IF (l \in orph /\ ~Losing(I2, l)) \/ ImpliedPresence(I2, d2, l) THEN Get(d2, l) \in {Get(d, l), "absent"}
                                  ELSE Get(d2, l) = "absent"
 \* (b') C08: leaves of a losing case are absent, whoever defines them
 AdmOneCase(d2, I2) == \A l \in (DOMAIN d2) \cup LeavesOf(I2) : Losing(I2, l) => Get(d2, l) = "absent"
